@@ -574,8 +574,10 @@ def run_history(steps, pq, ocache=None, only=None):
                 pending.append((idx, qv, obs, version))
             elif op == "observe":
                 coll = None
+                from_opt = False
                 if st.get("via") == "handle":
                     coll = handles.get(qv + ("opt",))
+                    from_opt = coll is not None
                     if coll is None:
                         coll = handles.get(qv + ("built",))
                 if coll is None:
@@ -585,6 +587,10 @@ def run_history(steps, pq, ocache=None, only=None):
                 if st.get("via") == "handle":
                     # the name of an already optimized handle is not the name of the logical query
                     obs.pop("name", None)
+                if from_opt and "divisions" in obs:
+                    # … and its divisions are those of the OPTIMIZED plan (the tune stage may fuse a multi-file read into
+                    # fewer partitions): they are compared with the fresh interpreter's optimized divisions
+                    obs["opt_divisions"] = obs.pop("divisions")
                 pending.append((idx, qv, obs, version))
         except Exception as e:  # noqa: BLE001
             mismatches.append({"step": idx, "q": qv[0], "v": qv[1], "field": "step:" + op, "session": f"{type(e).__name__}: {str(e)[:160]}", "fresh": "no exception expected"})
@@ -655,7 +661,18 @@ def _shrink(steps, mismatch, pq_root, budget):
     if mismatch["field"] in ("result", "divisions", "opt_divisions", "npartitions", "len", "meta") and "fresh_full" in mismatch:
         only = {"q": mismatch["q"], "v": mismatch["v"], "fresh": {mismatch["field"]: mismatch["fresh_full"]}}
 
+    def version_at_end(ss):
+        v = 0
+        for x in ss:
+            if x["op"] == "rewrite":
+                v = x["version"]
+        return v
+
+    v0 = version_at_end(best)
+
     def fails(cand):
+        if only is not None and version_at_end(cand) != v0:
+            return False  # the recorded fresh values belong to the dataset version of the failing step
         res = _run_session(cand, pq_root, only)
         return any(m["q"] == mismatch["q"] and m["field"] == mismatch["field"] for m in res["mismatches"])
 
